@@ -245,7 +245,30 @@ def c15_wire(idx: int) -> bool:
     return run(_wire_body, idx)
 
 
-DIMS = {"c15_wire": dims_of}
+# ---- two spellings of one origin used for the first time at the same moment -------------------------------------------------
+
+def race_dims(part):
+    from harness import c17
+    return c17.race_dims(part)
+
+
+def _race_body(idx):
+    """`http://a/` from one thread, `HTTP://A:80/` from another, every schedule of the two over the manager's cache (machinery of
+    C17's c17_race): both must end up on the same pool object, whichever comes first."""
+    from harness import c17
+    pi, w1, x1 = decode_point(idx, race_dims)
+    return N._untraced(c17._race_all)(P.num_pools, P.w, P.x, pi, w1, x1)
+
+
+def c15_race(idx: int) -> bool:
+    """
+    pre: 0 <= idx < P.n
+    post: _
+    """
+    return run(_race_body, idx)
+
+
+DIMS = {"c15_wire": dims_of, "c15_race": race_dims}
 
 
 def JOBS(tier):
@@ -258,11 +281,17 @@ def JOBS(tier):
                 part = {"scheme": scheme, "proxy": proxy, "hosts": hosts, "paths": [0, 1, 3, 4, 5, 7] if quick else list(range(len(PATHS)))}
                 part["n"] = space_size(dims_of(part))
                 jobs.append({"func": "c15_wire", "timeout": t, "path_timeout": 60, "samples": 1, "part": part})
+    for w, x in ((0, 6), (1, 6), (0, 7)):
+        part = {"num_pools": 2, "w": w, "x": x, "wmax": 10, "xmax": 10, "pre": [0, 2]}
+        part["n"] = space_size(race_dims(part))
+        jobs.append({"func": "c15_race", "timeout": t, "path_timeout": 120, "samples": 1, "part": part})
     return jobs
 
 
 EVIDENCE = {
-    "bounds": {"quick": "2 schemes x 2 spellings x 8 host forms (name, upper case, trailing dot, IPv4, [::1], zoned [fe80::1%25eth0], upper-case "
+    "bounds": {"race": "c15_race: 'http://a/' and 'HTTP://A:80/' looked up / requested for the first time by two threads, every 2-thread "
+                       "schedule over the manager cache's lock and dict accesses (w1, w2 <= 10, x1 <= 10), empty or foreign pre-state",
+               "quick": "2 schemes x 2 spellings x 8 host forms (name, upper case, trailing dot, IPv4, [::1], zoned [fe80::1%25eth0], upper-case "
                         "v6, A-label) x port {absent, explicit default, 8080} x userinfo x 5 path forms (empty, '/', space, dot segments, escapes) "
                         "x 4 query forms x fragment, directly and through an http proxy (forwarding for http, CONNECT for https): every URL "
                         "enumerated, each followed by its canonical twin and by a request to another origin",
